@@ -16,6 +16,8 @@
     M notifyreset <0|1>       does the implementation under test run the observers after a reset to the defaults?
                               (0 = the code as it is; 1 = with proposed fix-D46) — selects `reloadN`
     R                         one reload (full-version comparison: mtime in ns + size)
+    RP <id,id,…|[]>           one reload during whose notification round an observer panicked after these targets
+                              (the panicking one included) had been called
     RR <mtimeNs> <text>       one reload during which the file becomes <text> right after it was read
     RS                        one reload with the whole-second comparison of the unchanged code
        → (nofile | reset | same | loaded | parseerr | expansion) <notified so far>
@@ -178,6 +180,11 @@ def answer (st : DrvSt) (line : String) : DrvSt × String :=
   | ["R"] =>
     let (c, r) := reloadN st.notifyReset verFull st.cfg st.file
     ({ st with cfg := c, obs := if notifies st.notifyReset r then st.obs.run else st.obs }, showRes c r)
+  | ["RP", ids] =>
+    -- a reload during whose notification round an observer panicked: only the targets `ids` were visited
+    let idl : List Nat := if ids == "[]" then [] else (ids.splitOn ",").filterMap parseNat
+    let (c, r) := reloadN st.notifyReset verFull st.cfg st.file
+    ({ st with cfg := c, obs := if notifies st.notifyReset r then st.obs.runPartial idl else st.obs }, showRes c r)
   | ["RR", t, text] => match parseInt t, decStr text, st.file with
     | some t, some text, some f1 =>
       -- a reload during which the file changes from its present state to ⟨t, text⟩ right after the read
